@@ -62,6 +62,7 @@ prop("C03", level="proof",
                 "(quoted importer, verb, quoted importee) per pair and nothing else; each missing-import bucket yields, for every subject with a missing pair, a record whose subject text "
                 "names that subject and whose object text is a ', '-join of exactly the texts of the objects IT is missing, and no other record. Composition: the record list of "
                 "_create_violation_messages consists of records of the eight buckets in their roles (every record stems from some bucket, every entry of every bucket has its record); "
+                "a bucket contributes records iff it is non-empty (lemmas C03_*_bucket_reported_iff_nonempty, C03_records_iff_some_bucket_nonempty); "
                 "create_rule_violation_messages renders each record as 'subject verb object.', every line is such a rendering, every bucket entry has its line, no line occurs twice; "
                 "create_rule_violation_message / RuleMatcher._create_rule_violation_message return a newline-join of exactly those lines for the generator of the rule's direction. "
                 "The verb wording ('imports' / 'does not import' / 'is [not] imported by' / plural forms) is the documented table, against which the source's PREFIX_MAPPING is verified. "
@@ -73,7 +74,7 @@ prop("C03", level="proof",
      roots=["Rule.assert_applies", "RuleViolationBaseDetector.get_rule_violation", "RuleViolationMessageGenerator._create_other_violating_dependencies_message",
             "RuleViolationMessageGenerator._get_violating_rule_subjects_and_objects", "RuleViolationMessageBaseGenerator.create_rule_violation_message",
             "RuleViolationMessageBaseGenerator.create_rule_violation_messages", "RuleViolationMessageBaseGenerator._create_violation_messages",
-            "RuleMatcher._create_rule_violation_message@str"], bounded=[_b("rules", "bounded_reports")], trusted_base=_TB)
+            "RuleMatcher._create_rule_violation_message@str", "C03_records_iff_some_bucket_nonempty"], bounded=[_b("rules", "bounded_reports")], trusted_base=_TB)
 prop("C13", level="proof",
      level_text="Unbounded proof for module rules: Rule.assert_applies raises ImproperlyConfigured / RuleInconsistency / ImpossibleMatch / NetworkXError exactly in the "
                 "incomplete, contradictory, unmatched-regex and unknown-name cases (exact raises-iff contracts down to the graph searches), so none of them yields a verdict; "
